@@ -52,7 +52,18 @@ def run_one(ctl: explorer.Ctl, cfg: Dict[str, Any]) -> Dict[str, Any]:
 
     async def body(read, write):
         info["entered"] = True
-        await send_message(read, write, "tools/list", timeout=1.5, message_id="q1")
+        kw = {}
+        opts = cfg.get("opts", "none")
+        if opts in ("token", "both"):
+            from chuk_mcp.protocol.messages.send_message import CancellationToken
+            kw["cancellation_token"] = CancellationToken()   # never triggered
+
+        async def on_progress(progress, total, message):
+            info.setdefault("progress", []).append(progress)
+
+        if opts in ("progress", "both"):
+            kw["progress_callback"] = on_progress
+        await send_message(read, write, "tools/list", timeout=1.5, message_id="q1", **kw)
         info["returned_normally"] = True
 
     err_body = {"jsonrpc": "2.0", "id": "q1", "error": {"code": code, "message": text}}
@@ -147,6 +158,7 @@ def run_one(ctl: explorer.Ctl, cfg: Dict[str, Any]) -> Dict[str, Any]:
         raise core.HarnessError(f"context not entered: {val}")
     if kind != "classified" or cls != want_cls or got_code != code:
         sig = {"class": "error-did-not-leave-the-context-as-the-classified-exception", "entry": cfg["entry"],
+               **({"call_options": cfg["opts"]} if cfg.get("opts") else {}),
                "left_as": kind if kind != "classified" else f"{cls}/{got_code}",
                "text_kind": "mentions-cancel-scope" if "cancel" in text.lower() and "scope" in text.lower() else
                ("mentions-json-object" if "json object" in text.lower() else
@@ -161,5 +173,8 @@ def run_one(ctl: explorer.Ctl, cfg: Dict[str, Any]) -> Dict[str, Any]:
 def add_part(res: core.Result, tier: str) -> None:
     cfgs = [{"entry": e, "text": t, "code": c} for e in ENTRIES for t in TEXTS for c in CODES]
     cfgs += [{"entry": e, "text": t, "code": c} for e in HTTP_ENTRIES for t in HTTP_TEXTS for c in HTTP_CODES]
+    # the call's optional arguments (a token that never fires, a progress callback) do not change how the error surfaces
+    cfgs += [{"entry": e, "text": t, "code": c, "opts": o} for e in ("stdio_client", "http_client", "sse_client")
+             for t in ("plain failure", "Method not found") for c in CODES + [-32002] for o in ("token", "progress", "both")]
     out = explorer.explore(RUN, cfgs, fidelity=True)
     sched.absorb(res, "iv-classified-error-leaves-the-client-context", RUN, out, cfgs, min_outcomes=1)
